@@ -73,7 +73,7 @@ class Recorder:
         self.regs.append(obj)
         ev = {"act": "new", "prop": self.prop, "args": [], "out": "ret",
               "res": [P.project(obj)], "digests": [P.digest(o) for o in self.regs[:-1]],
-              "targets": [], "opts": opts_now(), "note": note, "kept": True}
+              "targets": [], "after": [], "opts": opts_now(), "note": note, "kept": True}
         self.events.append(ev)
         return len(self.regs)
 
@@ -115,7 +115,8 @@ class Recorder:
                 self.regs.append(r)
                 new_regs.append(len(self.regs))
         ev = {"act": act, "prop": prop or self.prop, "args": list(args), "out": out, "res": res,
-              "digests": digests, "targets": list(targets), "opts": opts_now(),
+              "digests": digests, "targets": list(targets),
+              "after": [P.project(self.obj(t)) for t in targets], "opts": opts_now(),
               "ms": round(ms, 2), "kept": bool(keep)}
         for k, v in params.items():
             if not k.startswith("_"):
